@@ -16,7 +16,7 @@ From Coq Require Import List NArith ZArith Bool Lia.
 From TexModel Require Import Base Tables Chars Tokenizer Tree Reader GlueDSL GlueGen.
 From TexModel Require TokDSL TokGen ReadDSL ReadGen.
 From TexProofs Require Import TokProofs.
-From TexProofs Require TokGenProofs ReadGenProofs ReadGenEquiv.
+From TexProofs Require TokGenProofs ReadGenEquiv.
 Import ListNotations.
 
 Local Arguments call_rule : simpl never.
